@@ -100,7 +100,7 @@ func (s *intraProxyStreamSender) Run(
 
 	// register this sender so sendMessages can use it
 	s.shardManager.GetIntraProxyManager().RegisterSender(s.peerNodeName, s.targetShardID, s.sourceShardID, s)
-	defer s.shardManager.GetIntraProxyManager().UnregisterSender(s.peerNodeName, s.targetShardID, s.sourceShardID)
+	defer s.shardManager.GetIntraProxyManager().UnregisterSender(s.peerNodeName, s.targetShardID, s.sourceShardID, s)
 
 	// Send pending watermarks to late-registering shards
 	// When a sender is registered, check if there's an active receiver for the source shard
@@ -491,12 +491,15 @@ func (m *intraProxyManager) UnregisterSender(
 	peerNodeName string,
 	targetShard history.ClusterShardID,
 	sourceShard history.ClusterShardID,
+	sender *intraProxyStreamSender,
 ) {
 	key := peerStreamKey{targetShard: targetShard, sourceShard: sourceShard}
 	m.loggers.Get(logging.ShardRouting).Info("UnregisterSender", tag.NewStringTag("peerNodeName", peerNodeName),
 		tag.NewStringTag("key", fmt.Sprintf("%v", key)))
 	m.streamsMu.Lock()
-	if ps := m.peers[peerNodeName]; ps != nil && ps.senders != nil {
+	// Remove the entry only while it is still this sender's: a newer incarnation of the same stream may have
+	// registered in the meantime, and its entry must survive the old incarnation's clean-up.
+	if ps := m.peers[peerNodeName]; ps != nil && ps.senders != nil && ps.senders[key] == sender {
 		delete(ps.senders, key)
 	}
 	m.streamsMu.Unlock()
